@@ -374,7 +374,25 @@ func (e *fnEnc) addrOfQuiet(lv *LValue) string {
 	e.vc.declFun(fname, sig)
 	t := sApp(fname, args...)
 	e.vc.def("(> " + t + " 0)")
+	// interior addresses are injective: distinct containers / fields have distinct addresses
+	e.vc.declFun("addrtag!", "(Int) Int")
+	e.vc.def(fmt.Sprintf("(= (addrtag! %s) %d)", t, addrTagOf(fname)))
+	for k, a := range args {
+		inv := fmt.Sprintf("addrinv!%d", k)
+		e.vc.declFun(inv, "(Int) Int")
+		e.vc.def(fmt.Sprintf("(= (%s %s) %s)", inv, t, a))
+	}
 	return t
+}
+
+var addrTags = map[string]int{}
+
+func addrTagOf(fname string) int {
+	if n, ok := addrTags[fname]; ok {
+		return n
+	}
+	addrTags[fname] = len(addrTags) + 1
+	return addrTags[fname]
 }
 
 func (e *fnEnc) globalLV(g *ssa.Global) *LValue {
